@@ -294,12 +294,102 @@ class FakeFrame(object):
         return FakeFrame([r[:j] + r[j + 1:] for r in self._rows], columns=cols,
                          index=[r[j] for r in self._rows])
 
+    # -- label / position based access (subset) --
+    @property
+    def loc(self):
+        return _Loc(self)
+
+    @property
+    def iloc(self):
+        return _ILoc(self)
+
+    def drop(self, labels=None, axis=0, index=None, columns=None, inplace=False):
+        if inplace:
+            self.mutations.append(('drop', 'inplace'))
+            raise Unsupported('drop(inplace=True) (recorded as mutation)')
+        if columns is not None or axis == 1:
+            cols = columns if columns is not None else labels
+            cols = [cols] if isinstance(cols, str) else list(cols)
+            keep = [c for c in self._cols if c not in cols]
+            return self[keep]
+        labels = index if index is not None else labels
+        if isinstance(labels, FakeSeries):
+            labels = labels._v
+        labels = list(labels) if isinstance(labels, (list, tuple)) else [labels]
+        for lab in labels:
+            if lab not in self.index:
+                raise KeyError('%r not found in axis' % (lab,))
+        keep = [i for i, lab in enumerate(self.index) if lab not in labels]
+        return self._sub([self._rows[i] for i in keep], [self.index[i] for i in keep])
+
+    def reset_index(self, drop=False, inplace=False):
+        if inplace:
+            self.mutations.append(('reset_index', 'inplace'))
+            raise Unsupported('reset_index(inplace=True) (recorded as mutation)')
+        if not drop:
+            raise Unsupported('reset_index(drop=False)')
+        return self._sub(list(self._rows), list(range(len(self._rows))))
+
+    def copy(self, deep=True):
+        return self._sub(list(self._rows), list(self.index))
+
+    def head(self, n=5):
+        return self[0:n]
+
+    def iterrows(self):
+        for lab, r in zip(self.index, self._rows):
+            yield lab, FakeSeries(list(r), list(self._cols))
+
     def snapshot(self):
         return (tuple(self._cols), tuple(self._rows), tuple(self.index),
                 tuple(sorted((k, v.name) for k, v in self._dtypes.items())))
 
     def __repr__(self):
         return 'FakeFrame(cols=%r, rows=%r, index=%r)' % (self._cols, self._rows, self.index)
+
+
+class _Loc(object):
+    def __init__(self, f):
+        self.f = f
+
+    def __getitem__(self, key):
+        f = self.f
+        if isinstance(key, tuple):
+            raise Unsupported('loc[rows, cols]')
+        if isinstance(key, FakeSeries):
+            key = key._v
+        if isinstance(key, list):
+            if key and all(isinstance(k, bool) or hasattr(k, 't') for k in key) and len(key) == len(f._rows) \
+                    and not all(k in f.index for k in key):
+                return f[key]
+            pos = []
+            for lab in key:
+                hits = [i for i, l in enumerate(f.index) if l == lab]
+                if not hits:
+                    raise KeyError(lab)
+                pos += hits
+            return f._sub([f._rows[i] for i in pos], [f.index[i] for i in pos])
+        hits = [i for i, l in enumerate(f.index) if l == key]
+        if not hits:
+            raise KeyError(key)
+        if len(hits) == 1:
+            return FakeSeries(list(f._rows[hits[0]]), list(f._cols))
+        return f._sub([f._rows[i] for i in hits], [f.index[i] for i in hits])
+
+
+class _ILoc(object):
+    def __init__(self, f):
+        self.f = f
+
+    def __getitem__(self, key):
+        f = self.f
+        if isinstance(key, slice):
+            return f[key]
+        if isinstance(key, list):
+            return f._sub([f._rows[i] for i in key], [f.index[i] for i in key])
+        if isinstance(key, int):
+            return FakeSeries(list(f._rows[key]), list(f._cols))
+        raise Unsupported('iloc[%r]' % (key,))
 
 
 def concat(frames, *a, **k):
